@@ -1173,6 +1173,8 @@ run_task(_task_t t)
 		return -1;
 	}
 
+	/* args is static, forget the flag of an earlier refused run */
+	args[2U] = NULL;
 	if ((unsigned int)t->t->max_simul < 077U/*unset*/ &&
 	    !(t->nsim < (unsigned int)t->t->max_simul)) {
 		args[2U] = "-nd";
